@@ -150,7 +150,7 @@ Definition dec_tev (nt : net) (t : tree) : option tev :=
   end.
 Definition dec_counters (t : tree) : option counters :=
   match t with
-  | T [a; b; c; d; e] => a <- getNat a ;; b <- getNat b ;; c <- getNat c ;; d <- getNat d ;; e <- getNat e ;;
+  | T (a :: b :: c :: d :: e :: _) => a <- getNat a ;; b <- getNat b ;; c <- getNat c ;; d <- getNat d ;; e <- getNat e ;;
       Some {| k_recv := a; k_proc := b; k_filt := c; k_fail := d; k_disc := e |}
   | _ => None
   end.
@@ -252,7 +252,16 @@ Definition judge_free (ti tobs : tree) : tree :=
               let failing := flat_map acct_fails stalls in
               let stall_acct := map (fun id => clause 4 4 [L id])
                                     (dedup (filter (fun id => 2 <=? Z.of_nat (length (filter (Z.eqb id) failing))) failing)) in
-              let stall_clause := (if stall_ok =? 0 then [clause 4 3 []] else []) ++ (if cut <? 0 then [] else stall_acct) in
+              (* (4,5): buffer_full_events_total ("events that caused blocking because the node's buffer was full",
+                 docs/metrics.md) of a node marked discard_on_full_buffer stays 0: no delivery to it ever took the
+                 blocking path (theorem C04_discarding_never_blocks; the model has no such counter) *)
+              let full_clause :=
+                flat_map (fun ix => match snd ix with
+                                    | T [_; _; _; _; _; L f] =>
+                                        if ndisc (info nt (fst ix)) && (0 <? f) then [clause 4 5 [L (nid (info nt (fst ix)))]] else []
+                                    | _ => []
+                                    end) (combine (seq 0 (length ctrs)) ctrs) in
+              let stall_clause := full_clause ++ (if stall_ok =? 0 then [clause 4 3 []] else []) ++ (if cut <? 0 then [] else stall_acct) in
               verdict (diff_if (tree_eqb (enc_net nt) netdump) 1) (map enc_pc fails ++ stall_clause) (enc_net nt)
                       ((if clean then [30] else [31])
                        ++ (if existsb (fun x => ndisc x) nt then [20] else [])
